@@ -175,6 +175,8 @@ func (m *c16Model) cold(n int, viaGet bool, touched map[int]bool) (ok, det bool)
 			case !m.c.Dev && m.status[f.dep] == stMaybe:
 				return false, false
 			default:
+				// whatever the outcome further down, the dependency may have been loaded (and cached) on the way
+				touched[f.dep] = true
 				dok, ddet := m.cold(f.dep, viaGet, touched)
 				if !ddet {
 					return false, false
@@ -182,7 +184,6 @@ func (m *c16Model) cold(n int, viaGet bool, touched map[int]bool) (ok, det bool)
 				if !dok {
 					return false, true
 				}
-				touched[f.dep] = true
 			}
 		}
 		return true, true
